@@ -28,9 +28,13 @@ PROPS = {
     'C02': ['dispatch'],
     'C03': ['dispatch'],
     'C04': ['bind'],
-    'C11': ['dispatch', 'asyncsched', 'registry'],
+    'C11': ['dispatch', 'asyncsched', 'registry', 'client', 'loopback'],
     'C12': ['dispatch'],
     'C15': ['registry'],
+    'C07': ['loopback'],
+    'C08': ['client'],
+    'C09': ['client'],
+    'C19': ['client'],
     'C10': ['asyncsched'],
     'C05': ['msg'],
     'C06': ['msg'],
